@@ -40,8 +40,8 @@ theorem escape_byte_facts : ∀ b : UInt8,
   apply forall_u8; decide
 
 set_option maxRecDepth 100000 in
-/-- the table copied into dynamic_impersonate.go is net/http's token table -/
-theorem legal_eq_token : ∀ b : UInt8, legalHeaderByte b = isTokenByte b := by
+/-- the regenerated set of escaped bytes is exactly: not a token byte of net/http, or '%', or an upper-case letter -/
+theorem escaped_set : ∀ b : UInt8, shouldEscape b = (!isTokenByte b || b == 37 || isUpper b) := by
   apply forall_u8; decide
 
 /-! ## url.PathUnescape -/
@@ -699,9 +699,6 @@ theorem hget_strip_user (raw : List (Str × Str)) (hv : rawValid raw = true) :
     hget (authnStrip (parsed raw)) hImpUser = reqUser raw := by
   simp [hget, values_strip_user raw hv, reqUser]
 
-/-- the UTF-8 check is in the source (regenerated fact) -/
-theorem rejects_non_utf8 : KG.Gen.C02.impersonationRejectsNonUTF8 = true := by decide
-
 theorem userReqs_eq (u : Str) :
     (match splitUsername u with
       | some (ns, name) => [ImpReq.sa ns name]
@@ -716,7 +713,7 @@ theorem build_spec (raw : List (Str × Str)) (hv : rawValid raw = true) :
     buildImpersonationRequests (authnStrip (parsed raw)) =
       if malformed raw then none else if impersonationRequested raw then some (checks raw) else some [] := by
   simp only [buildImpersonationRequests, hget_strip_user raw hv, values_strip_group raw hv, anyExtra_strip,
-    anyExtra_parsed raw hv, extraRequests_strip, extraRequests_parsed raw hv, userReqs_eq, rejects_non_utf8, Bool.true_and]
+    anyExtra_parsed raw hv, extraRequests_strip, extraRequests_parsed raw hv, userReqs_eq]
   by_cases hu : (reqUser raw).isEmpty = true
   · by_cases hg : (reqGroups raw).isEmpty = true
     · by_cases he : (reqExtras raw).isEmpty = true
@@ -987,13 +984,10 @@ theorem hget_h2 (token : Str) (up : Bool) (h1 : Headers) (I2 : ∀ e ∈ h1, e.1
     simpa [hget, hb, values_append, this, values_del_ne _ _ _ (by decide : hImpUser ≠ hAuthorization)] using I3
   · simpa using I3
 
-/-- the value check is in the source (regenerated fact) -/
-theorem wrap_checks : KG.Gen.C02.wrapRequestChecksValues = true := by decide
-
 /-- `WrapRequest` on a header set without `Impersonate-User`: an error iff the identity has a value a header cannot carry -/
 theorem wrapRequest_eq (h : Headers) (u : Identity) (hu : hget h hImpUser = []) :
     wrapRequest h u = if checkImpersonationValues u then some (wrapHeaders h u) else none := by
-  simp only [wrapRequest, hu, wrap_checks, Bool.true_and]
+  simp only [wrapRequest, hu]
   cases checkImpersonationValues u <;> simp
 
 /-- the transport part in closed form -/
